@@ -218,7 +218,9 @@ def write_replay(prop, f, res, idx, sr=None):
         if sr.get('status') == 'replayed-fails':
             pd = os.path.join(d, '%s_%02d_program' % (ts, idx))
             os.makedirs(os.path.join(pd, 'src', 'bin'), exist_ok=True)
-            open(os.path.join(pd, 'src', 'lib.rs'), 'w').write(sr['lib_rs'])
+            parts = re.split(r'\n// ---- src/(\w+\.rs)\n', sr['lib_rs'])
+            open(os.path.join(pd, 'src', 'lib.rs'), 'w').write(parts[0])
+            for k_ in range(1, len(parts) - 1, 2): open(os.path.join(pd, 'src', parts[k_]), 'w').write(parts[k_ + 1])
             open(os.path.join(pd, 'src', 'bin', 'replay.rs'), 'w').write(sr['replay_main'])
             open(os.path.join(pd, 'Cargo.toml'), 'w').write('[package]\nname = "elf-verif-replay"\nversion = "0.1.0"\nedition = "2021"\n\n[dependencies]\nelf = { path = "%s" }\n\n[workspace]\n' % REPO)
             extra['replay_program'] = pd
